@@ -49,6 +49,8 @@ func errClassMsg(s string) string {
 		return "ruleBodyBadType"
 	case strings.HasPrefix(s, "duplicate id"):
 		return "dupId"
+	case strings.HasPrefix(s, "ruleId ") && strings.HasSuffix(s, "is not a string"):
+		return "badTrigger"
 	case s == "ancestor loop detected":
 		return "loop"
 	case s == "no location provider":
@@ -335,6 +337,10 @@ func (s *locSys) step(op map[string]interface{}) map[string]interface{} {
 	ctx := newCtx()
 	ctx.ReadKey, _ = op["rk"].(string)
 	ctx.WriteKey, _ = op["wk"].(string)
+	if sub, _ := op["subctx"].(bool); sub {
+		// requests that arrive through the HTTP service run in a sub-context of the service's context
+		ctx = ctx.SubContext()
+	}
 	ctx.SetLoc(loc)
 	id, _ := op["id"].(string)
 	kind, _ := op["op"].(string)
